@@ -64,6 +64,14 @@ def tryUpdateOutcome (_cfg : RunConfig) (updateOk : Bool) (storedBestBefore : Op
     | none => .unavailable
     | some bb => if now ≤ bb then .current else .stale
 
+/-- `rrdp::Run::load_repository` for a repository not yet handled in this run: an rpkiNotify URI
+rejected as dubious (filtering on, authority `localhost` / IP literal / explicit port) is reported
+as `Unavailable` without any request; otherwise `try_update` classifies. The CA still *announces*
+RRDP: the result goes through the policy table like any other `Unavailable`. -/
+def loadOutcome (cfg : RunConfig) (rejected updateOk : Bool) (storedBestBefore : Option Nat)
+    (now : Nat) : Outcome :=
+  if rejected then .unavailable else tryUpdateOutcome cfg updateOk storedBestBefore now
+
 /-- Whether an RRDP update is attempted at all. -/
 def asksRrdp (rrdpEnabled hasNotify : Bool) : Bool := hasNotify && rrdpEnabled
 
